@@ -11,6 +11,9 @@ CHECKS = {
             dict(name="copy-equals", run="^(TestCopyLaws|TestEqualsAgreesWithReference)$", quick=6000, thorough=6000000, shards_thorough=8),
             dict(name="codecs", run="^(TestJSONMarshalerRoundTrip|TestProtoMarshalerRoundTrip|TestGogoMarshalerRoundTrip|TestEnvelopeRoundTrip|TestReplyRoundTrip)$",
                  quick=2500, thorough=2400000, shards_thorough=8),
+            # native coverage-guided fuzzing, thorough tier only (cannot be seeded; the saved input is the replay unit)
+            dict(name="fuzz-envelope", fuzz="FuzzEnvelopeUnwrap", tiers=("thorough",), fuzztime_thorough=90),
+            dict(name="fuzz-equals", fuzz="FuzzEqualsCopy", tiers=("thorough",), fuzztime_thorough=90),
         ],
     ),
 }
